@@ -68,6 +68,15 @@ pub struct Outcome {
     pub trace_hash: u64,
 }
 impl Outcome {
+    /// Under an injected descriptor limit an invocation may fail, provided it fails loudly: an error that
+    /// names the exhausted resource is tolerated (the scenario is counted as skipped), a wrong answer, a
+    /// silent omission or a hang is not.
+    pub fn tolerate_loud_descriptor_exhaustion(&mut self, limited: bool) {
+        if limited && !self.violations.is_empty() && self.violations.iter().all(|v| v.msg.contains("Too many open files") || v.msg.contains("os error 24")) {
+            self.violations.clear();
+            self.skipped = Some("descriptor_limit_hit_loudly(tolerated under the injected limit)".into());
+        }
+    }
     pub fn skip(reason: &str) -> Outcome {
         Outcome {
             skipped: Some(reason.to_string()),
